@@ -52,12 +52,43 @@ pub fn abscissa_lists(thorough: bool) -> Vec<Vec<f64>> {
             }
         }
     }
+    // long knot lists around size thresholds: unit spacing and an uneven repeating spacing pattern, three offsets / scalings
+    for n in [8usize, 9, 12, 16, 17, 33, 65].into_iter().chain(if thorough { vec![10usize, 32, 64, 129, 257] } else { vec![] }) {
+        let unit: Vec<f64> = (0..n).map(|i| i as f64).collect();
+        let gaps = [0.5, 0.25, 2.25, 7.0, 0.125];
+        let mut acc = 0.0;
+        let uneven: Vec<f64> = (0..n).map(|i| { let v = acc; acc += gaps[i % gaps.len()]; v }).collect();
+        for base in [unit, uneven] {
+            out.push(base.clone());
+            out.push(base.iter().map(|x| x - 7.5).collect());
+            out.push(base.iter().map(|x| x * 1e-6).collect());
+            out.push(base.iter().map(|x| x * 3e5).collect());
+        }
+    }
     out
+}
+
+/// ordinate patterns for long knot lists
+fn long_pattern(p: usize, i: usize, x: f64) -> f64 {
+    match p {
+        0 => (i * i) as f64,                                  // convex monotone
+        1 => if i % 2 == 0 { 1.0 } else { -1.0 },             // zig-zag: every interior knot an extremum
+        2 => ((i / 3) as f64) * 1.5,                          // staircase: plateaus of length 3
+        3 => (((i * 7919) % 13) as f64) * 0.5,                // irregular: extrema, plateaus and monotone runs mixed
+        4 => 2.0 * x + 1.0,                                   // collinear
+        _ => 100.0 - (i as f64).sqrt() * 3.0 + if i % 5 == 0 { 1e-9 } else { 0.0 }, // decreasing with tiny bumps
+    }
 }
 
 /// ordinates for a given abscissa list, chosen through the explorer
 pub fn pick_ordinates(cx: &mut Cx, xs: &[f64]) -> (Vec<f64>, &'static str) {
     let n = xs.len();
+    if n > 6 {
+        let p = cx.choose(6);
+        let shift = cx.choose(7);
+        let scale = [1.0, 1e-3, 1e6, 8.673617379884035e-19][cx.choose(4)];
+        return ((0..n).map(|i| long_pattern(p, i + shift, xs[i]) * scale).collect(), if p == 4 { "near-collinear" } else { "alphabet" });
+    }
     let fam = cx.choose(2);
     let scale = [1.0, 1e-3, 1e6, 8.673617379884035e-19][cx.choose(4)];
     if fam == 0 {
